@@ -4,7 +4,7 @@ C04 / C10 — model of the client negotiation state machine of `QXmppOutgoingCli
 base/QXmppStreamManagement.cpp `StreamAckManager`, and the parts of `QXmppClient` /
 `QXmppRosterManager` that react to `connected`).
 
-The model follows the code that exists (tree after the fixes e0bbad9, fa0779c, 7771c2d, 7a677f2, e363fe9, c590ae4):
+The model follows the code that exists (tree after the fixes e0bbad9, fa0779c, 7771c2d, 7a677f2, e363fe9, c590ae4, 7c60ff5):
 * `handleStream` starts XEP-0078 authentication on a header without `version` — unless TLS is required and the link is
   not encrypted: then it warns and disconnects;
 * the idle listener rejects every jabber:client element (iq, message, presence) received on an unencrypted link when TLS is
@@ -300,7 +300,9 @@ def handleStream (s : St) (version id : Bool) : R :=
     let s2 := { s1 with streamVersionSet := version }
     if ¬ version ∧ s2.cfg.useNonSasl then
       -- a pre-1.0 stream has no STARTTLS: never authenticate in clear if TLS is required
-      (if s2.cfg.tls = .required ∧ ¬ s2.encrypted then disconnectFromHost s2 else startNonSaslAuth s2)
+      (if s2.cfg.tls = .required ∧ ¬ s2.encrypted then disconnectFromHost s2
+       -- a pre-1.0 stream advertises no features: the CSI availability of an earlier connection is forgotten (7c60ff5)
+       else startNonSaslAuth { s2 with csiAvail := false })
     else (s2, [])
 
 def mechUsable (s : St) : Mech → Option Used
